@@ -847,74 +847,301 @@ def check_eval(ctx, classes):
 
 
 # ------------------------------------------------------------------- LIST
-def check_list(ctx, classes):
-    prog = ctx.prog
+def find_list_translator(prog):
     f = prog.functions.get(PARSER + '._parse_list_rule')
     pr = prog.func(PARSER + '.parse_rule')
     if f is None:
-        # found through the region of parse_rule
-        for q, g in prog.region(pr).items():
-            if any(isinstance(n, ast.For) for n in ast.walk(g.node)) and \
-                    'list' in q:
+        # the callee of parse_rule that is neither the text translator (it
+        # consumes the tokenizer) nor a class
+        tok, consumer, _loop = T.find_tokenizer(prog)
+        for call, g in prog.callees(pr):
+            if g is not None and g.cls is None and g is not consumer and \
+                    g.module.name == PARSER:
                 f = g
     if f is None:
         raise AnalysisError('list-rule translator not found')
-    param = f.params[0]
-    W = lambda n: ctx.where(f.module, n)
-    outer = None
-    for n in f.node.body:
-        if isinstance(n, ast.For) and U(n.iter) == param:
-            outer = n
-    if outer is None:
-        raise AnalysisError('list-rule translator: outer iteration over the '
-                            'rule not found')
-    pm = parent_map(f.node)
+    return f
 
-    def in_outer(node):
-        n = node
-        while n is not None:
-            if n is outer:
+
+def _known_single(p, sym, nonempty):
+    """Do the path conditions on len(<sym>) pin its length to 1?"""
+    lo, hi = (1 if nonempty else 0), None
+    for c in p.conds:
+        if c.kind != 'test':
+            continue
+        e = c.expr
+        if isinstance(e, ast.Name) and e.id == sym:
+            if c.pol:
+                lo = max(lo, 1)
+            else:
+                hi = 0
+            continue
+        if not (isinstance(e, ast.Compare) and len(e.ops) == 1):
+            continue
+        a, b, op = e.left, e.comparators[0], e.ops[0]
+        flip = False
+        if isinstance(a, ast.Constant):
+            a, b, flip = b, a, True
+        if not (isinstance(a, ast.Call) and U(a) == 'len(%s)' % sym
+                and isinstance(b, ast.Constant)
+                and isinstance(b.value, int)):
+            continue
+        k = b.value
+        name = type(op).__name__
+        if flip:
+            name = {'Lt': 'Gt', 'Gt': 'Lt', 'LtE': 'GtE',
+                    'GtE': 'LtE'}.get(name, name)
+        if not c.pol:
+            name = {'Lt': 'GtE', 'GtE': 'Lt', 'Gt': 'LtE', 'LtE': 'Gt',
+                    'Eq': 'NotEq', 'NotEq': 'Eq'}.get(name, name)
+        if name == 'Eq':
+            lo, hi = max(lo, k), k if hi is None else min(hi, k)
+        elif name == 'Lt':
+            hi = k - 1 if hi is None else min(hi, k - 1)
+        elif name == 'LtE':
+            hi = k if hi is None else min(hi, k)
+        elif name == 'Gt':
+            lo = max(lo, k + 1)
+        elif name == 'GtE':
+            lo = max(lo, k)
+    return lo == 1 and hi == 1
+
+
+def check_list(ctx, classes):
+    """The list-of-lists form is the OR over its entries of the AND over
+    each entry's members, every member parsed as a single check and no
+    non-empty entry or member left out: decided on the translator's paths
+    (helpers inlined, comprehensions unfolded, one entry / one member)."""
+    prog = ctx.prog
+    f = find_list_translator(prog)
+    param = f.params[0]
+    mod = f.module
+
+    def inline(call, frame):
+        g = prog.callee_of(frame, call)
+        if g is None or g.module.name != PARSER or g.cls is not None:
+            return None
+        if g.qual == PARSER + '._parse_check':
+            return None
+        if any(isinstance(x, (ast.Yield, ast.YieldFrom))
+               for x in ast.walk(g.node)):
+            return None
+        return g
+    en = Enumerator(prog, f, inline=inline, comps=True, handler_paths=False,
+                    max_depth=5)
+    paths = en.run()
+    W = lambda line: '%s:%d' % (ctx.where(mod, f.node).split(':')[0], line)
+    reported = set()
+
+    def ob(ok, line, construct, detail, **kw):
+        k = (construct, detail)
+        if k in reported:
+            return
+        reported.add(k)
+        ctx.ob('C01.LIST', ok, W(line), f.qual, construct, detail, **kw)
+
+    def elem_src(sym):
+        d = en.defs.get(sym.id) if isinstance(sym, ast.Name) else None
+        if isinstance(d, tuple) and d and d[0] == 'elem':
+            return d[1]
+        return None
+
+    n_and = n_or = n_paths = 0
+    for p in paths:
+        # the collections of this path and what was put into them
+        contents, opaque = {}, set()
+        for ev in p.events:
+            if ev.kind != 'call':
+                continue
+            mc = method_call(ev.node)
+            if mc and isinstance(mc[0], ast.Name) and mc[0].id.startswith(
+                    'SYM_m'):
+                if mc[1] in ('append', 'add') and len(ev.node.args) == 1:
+                    contents.setdefault(mc[0].id, []).append(ev.node.args[0])
+                elif mc[1] in ('extend', 'insert', 'remove', 'pop', 'clear',
+                               'update', 'discard', 'sort', 'reverse'):
+                    opaque.add(mc[0].id)
+        loops = [c for c in p.conds if c.kind == 'loop']
+        outer = [c for c in loops if U(c.expr) == param]
+        entry = None
+        for sym, d in en.defs.items():
+            if isinstance(d, tuple) and d and d[0] == 'elem' and U(
+                    d[1]) == param:
+                if any(c.kind == 'loop' and c.pol and c.expr is d[1]
+                       for c in p.conds):
+                    entry = sym
+
+        def derived_from_entry(src, depth=4):
+            """is the iterable the entry itself, or a display holding the
+            entry / a constant?"""
+            if depth <= 0 or src is None:
+                return False
+            if isinstance(src, ast.Name) and src.id == entry:
                 return True
-            n = pm.get(n)
-        return False
-    # accumulators appended to inside the loop
-    accs = set()
-    for c in ast.walk(outer):
-        mc = method_call(c, 'append') if isinstance(c, ast.Call) else None
-        if mc and isinstance(mc[0], ast.Name):
-            accs.add(mc[0].id)
-    n_sites = 0
-    for c in ast.walk(f.node):
-        if not isinstance(c, ast.Call):
+            if isinstance(src, ast.Name) and src.id in en.defs and \
+                    isinstance(en.defs[src.id], (ast.List, ast.Tuple)):
+                return all((isinstance(x, ast.Name) and x.id == entry)
+                           or isinstance(x, ast.Constant)
+                           for x in en.defs[src.id].elts)
+            if isinstance(src, (ast.List, ast.Tuple)):
+                return all((isinstance(x, ast.Name) and x.id == entry)
+                           or isinstance(x, ast.Constant) for x in src.elts)
+            if isinstance(src, ast.Call) and U(src.func) in (
+                    'list', 'tuple') and len(src.args) == 1:
+                return derived_from_entry(src.args[0], depth - 1)
+            return False
+
+        def term(e, depth=8):
+            if depth <= 0 or e is None:
+                return ('?', U(e) if e is not None else 'None')
+            if isinstance(e, ast.Name) and e.id.startswith('SYM_m'):
+                if e.id in opaque:
+                    return ('?', 'collection changed by other means')
+                return ('coll', e.id, [term(x, depth - 1)
+                                       for x in contents.get(e.id, [])])
+            if isinstance(e, ast.Name) and e.id in en.defs and isinstance(
+                    en.defs[e.id], ast.AST):
+                return term(en.defs[e.id], depth - 1)
+            if isinstance(e, ast.Call):
+                r = prog.resolve(mod, e.func)
+                if r == PARSER + '._parse_check' and len(e.args) == 1:
+                    return ('L', e.args[0])
+                if r == CHECKS + '.FalseCheck':
+                    return ('F',)
+                if r == CHECKS + '.TrueCheck':
+                    return ('T',)
+                cc = classes.get(r)
+                if cc is not None and cc.sem in ('and', 'or') and len(
+                        e.args) == 1:
+                    return (cc.sem, term(e.args[0], depth - 1), e)
+            if isinstance(e, ast.Subscript) and is_const(e.slice) and \
+                    e.slice.value in (0, -1):
+                c = term(e.value, depth - 1)
+                if c[0] == 'coll':
+                    # the path must know the collection is a singleton
+                    return ('first', c, _known_single(p, c[1],
+                                                      bool(c[2])))
+            return ('?', U(e)[:60])
+
+        if p.outcome.kind != 'return' or p.outcome.expr is None:
+            if p.outcome.kind == 'raise':
+                continue            # C02 decides what malformed values do
+            ob(False, p.outcome.line, 'list rule -> ' + p.outcome.text(),
+               'the list-rule translator can finish without a check')
             continue
-        cc = classes.get(prog.resolve(f.module, c.func))
-        if cc is None or cc.sem not in ('and', 'or') or len(c.args) != 1:
+        n_paths += 1
+        R = term(p.outcome.expr)
+        line = p.outcome.line
+        entered = bool(outer) and outer[0].pol and entry is not None
+        if not entered:
+            # empty rule: C01.CONST decides it
             continue
-        arg = c.args[0]
-        n_sites += 1
-        if not in_outer(c):
-            ok = isinstance(arg, ast.Name) and arg.id in accs and \
-                cc.sem == 'or'
-            ctx.ob('C01.LIST', ok, W(c), f.qual, U(c),
-                   'the collection accumulated over the outer list is joined '
-                   'by an OR-semantics check' if ok else
-                   'the outer list of a list-of-lists rule is joined by a '
-                   'check with %r semantics' % cc.sem)
+        entry_truth = None
+        for c in p.conds:
+            if c.kind == 'test' and isinstance(c.expr, ast.Name) and \
+                    c.expr.id == entry:
+                entry_truth = c.pol
+
+        def member_ok(t):
+            """a parsed member of the entry"""
+            if t[0] != 'L':
+                return False, 'a member of an entry is not parsed as a ' \
+                    'single check (%s)' % (t[1] if t[0] == '?' else t[0])
+            a = t[1]
+            src = elem_src(a)
+            if src is None or not derived_from_entry(src):
+                return False, 'the text parsed (%s) is not a member of the ' \
+                    'entry' % U(en.expand(a))[:40]
+            return True, ''
+
+        def entry_ok(t):
+            """the translation of one entry: AND of its parsed members"""
+            nonlocal n_and
+            if t[0] == 'and':
+                n_and += 1
+                coll = t[1]
+                if coll[0] != 'coll':
+                    return False, 'AND node not built from the collected ' \
+                        'members'
+                items = coll[2]
+            elif t[0] == 'first':
+                if not t[2]:
+                    return False, 'the first member stands for the entry ' \
+                        'without a `len(..) == 1` test'
+                items = t[1][2]
+            elif t[0] == 'L':
+                items = [t]
+            elif t[0] == 'or':
+                return False, 'the members of an entry are joined by a ' \
+                    'check with \'or\' semantics'
+            else:
+                return False, 'entry translated to %s' % (t[1:],)
+            if not items:
+                return False, 'a member of a non-empty entry is left out ' \
+                    'of its AND'
+            for it in items:
+                ok, why = member_ok(it)
+                if not ok:
+                    return False, why
+            return True, ''
+
+        if R[0] == 'or':
+            n_or += 1
+            coll = R[1]
+            items = coll[2] if coll[0] == 'coll' else None
+        elif R[0] == 'first':
+            items = R[1][2]
+            if not R[2]:
+                ob(False, line, 'result ' + U(en.expand(p.outcome.expr))[:60],
+                   'the first entry stands for the whole list rule without '
+                   'a `len(..) == 1` test')
+                continue
+        elif R[0] == 'F':
+            # legitimate only when the entry is empty
+            ok = entry_truth is False
+            ob(ok, line, 'all entries empty -> FalseCheck',
+               'a list rule whose entries are all empty denies' if ok else
+               'a non-empty entry can be left out of the result (path: %s)'
+               % p.cond_text()[-200:])
+            continue
+        elif R[0] == 'and':
+            ob(False, line, 'result ' + U(en.expand(p.outcome.expr))[:60],
+               'the outer list of a list-of-lists rule is joined by a check '
+               'with \'and\' semantics')
+            continue
         else:
-            ok = cc.sem == 'and'
-            ctx.ob('C01.LIST', ok, W(c), f.qual, U(c),
-                   'the inner list is joined by an AND-semantics check'
-                   if ok else 'the inner list of a list-of-lists rule is '
-                   'joined by a check with %r semantics' % cc.sem)
-    ctx.floor('C01.LIST', n_sites, 2, 'combinator construction sites')
-    # every inner element goes through _parse_check
-    elems = [c for c in ast.walk(outer) if isinstance(c, ast.Call)
-             and prog.resolve(f.module, c.func) == PARSER + '._parse_check']
-    ok = bool(elems)
-    ctx.ob('C01.LIST', ok, W(outer), f.qual, 'inner elements',
-           'each inner element is parsed as a single check' if ok else
-           'inner elements are not parsed with the single-check parser')
-    # singleton unwrapping does not change semantics; nothing to check
+            ob(False, line, 'result ' + U(en.expand(p.outcome.expr))[:60],
+               'the list-rule translator answers with something that is not '
+               'the OR of its entries (%s)' % (R[1:],))
+            continue
+        if items is None:
+            ob(False, line, 'OR node', 'OR node not built from the collected '
+               'entries')
+            continue
+        if not items:
+            ok = entry_truth is False
+            if not ok:
+                ob(False, line, 'entries of a list rule',
+                   'a non-empty entry can be left out of the result (path: '
+                   '%s)' % p.cond_text()[-200:])
+            continue
+        if entry_truth is False:
+            ob(False, line, 'entries of a list rule',
+               'an empty entry takes part in the result')
+            continue
+        bad = None
+        for it in items:
+            ok, why = entry_ok(it)
+            if not ok:
+                bad = why
+        ob(bad is None, line, 'result ' + U(en.expand(p.outcome.expr))[:70],
+           'OR over the entries of the AND over each entry\'s parsed members'
+           if bad is None else bad + ' (path: %s)' % p.cond_text()[-160:])
+    ctx.count(len(paths))
+    ctx.floor('C01.LIST', n_paths, 2, 'list-rule translator paths')
+    if not ctx.findings:
+        ctx.floor('C01.LIST', n_and, 1, 'AND joins of an entry')
+        ctx.floor('C01.LIST', n_or, 1, 'OR joins of the entries')
     return f
 
 
@@ -1098,53 +1325,6 @@ def check_text_driver(ctx, pstate):
                            bad[0].cond_text()[-200:]))
 
 
-def check_list_elems(ctx):
-    """Every entry of a list rule takes part in the result."""
-    prog = ctx.prog
-    f = prog.functions.get(PARSER + '._parse_list_rule')
-    if f is None:
-        raise AnalysisError('list-rule translator not found')
-    pm = parent_map(f.node)
-    W = lambda n: ctx.where(f.module, n)
-    problems = []
-    for n in walk_no_nested(f.node):
-        if isinstance(n, (ast.ListComp, ast.GeneratorExp, ast.SetComp)) \
-                and any(g.ifs for g in n.generators):
-            problems.append((n, 'a comprehension over the entries filters '
-                             'them (%s)' % U(n)[:60]))
-        if isinstance(n, (ast.Continue, ast.Break)):
-            loop = None
-            guard = None
-            a = pm.get(n)
-            while a is not None:
-                if isinstance(a, ast.If) and guard is None:
-                    guard = a
-                if isinstance(a, (ast.For, ast.While)):
-                    loop = a
-                    break
-                a = pm.get(a)
-            ok = False
-            if loop is not None and guard is not None and isinstance(
-                    loop, ast.For):
-                t = guard.test
-                ok = isinstance(t, ast.UnaryOp) and isinstance(
-                    t.op, ast.Not) and U(t.operand) == U(loop.target)
-            if not ok:
-                problems.append((n, 'an entry can be skipped under the '
-                                 'condition `%s`' % (
-                                     U(guard.test)[:60] if guard is not None
-                                     else 'unconditional')))
-    for node, why in problems:
-        ctx.ob('C01.LIST', False, W(node), f.qual, U(node)[:60],
-               'in the list-of-lists translation ' + why + ': the rule is '
-               'no longer the OR of the ANDs of all its entries')
-    if not problems:
-        ctx.ob('C01.LIST', True, W(f.node), f.qual,
-               'entries of a list rule',
-               'only empty entries are skipped; every other entry is parsed '
-               'and combined')
-
-
 def _needs_separator(en, path, subject):
     """True when the path uses element [1] of `subject.split(sep, ..)` on its
     normal (non-exception) flow: impossible for a text without the
@@ -1196,6 +1376,5 @@ def check(ctx):
     tf, en, paths = T.extract(ctx.prog)
     check_tokenizer(ctx, table, tf, en, paths)
     check_list(ctx, classes)
-    check_list_elems(ctx)
     check_const(ctx)
     check_text_driver(ctx, pstate)
